@@ -53,7 +53,7 @@ def _rebase(events):
 
 
 def exchange(kind, method, nprod, ncons, per, maxsize, size, timeout=None, nowait=False,
-             use_threads=False, delay=0.0, cons_in_parent=False):
+             use_threads=False, delay=0.0, cons_in_parent=False, signals=False):
     ctx = billiard.get_context(method)
     if kind == 'Queue':
         q = ctx.Queue(maxsize)
@@ -83,7 +83,7 @@ def exchange(kind, method, nprod, ncons, per, maxsize, size, timeout=None, nowai
     for p in range(nprod):
         r, w = ctx.Pipe(duplex=False)
         whos.append(p + 1)
-        t = Proc(target=targets.q_producer, args=(q, p + 1, per, size, w, nowait))
+        t = Proc(target=targets.q_producer, args=(q, p + 1, per, size, w, nowait, signals))
         t.daemon = True
         t.start()
         procs.append(t)
@@ -105,6 +105,7 @@ def exchange(kind, method, nprod, ncons, per, maxsize, size, timeout=None, nowai
             t.join(10)
     _rebase(events)
     return {'name': '%s/%s/%dx%d/max%d/size%d%s' % (kind, method, nprod, ncons, maxsize, size,
+                                                    '/signals' if signals else
                                                     '/threads' if use_threads else
                                                     '/consumer-in-parent' if cons_in_parent else ''),
             'maxsize': maxsize, 'drained': True, 'settle': 300000, 'corrupt': bad, 'events': events}
@@ -206,6 +207,11 @@ def main():
     hs.append(exchange('Queue', 'fork', 2, 2, per, 2, 1000, use_threads=True))
     hs.append(exchange('Queue', 'spawn', 2, 1, per, 2, 10, cons_in_parent=True))
     hs.append(exchange('JoinableQueue', 'spawn', 1, 1, per, 2, 10, cons_in_parent=True))
+    # refused puts on a bounded JoinableQueue: a put that raised Full is not an item (join must still return)
+    hs.append(exchange('JoinableQueue', 'fork', 2, 1, per, 2, 10, nowait=True, delay=0.004))
+    # a producer that keeps being interrupted by a handled signal while its write() is blocked on a
+    # full pipe (slow consumer): short writes must be completed
+    hs.append(exchange('SimpleQueue', 'fork', 1, 1, per, 0, big, delay=0.03, signals=True))
     hs.append(join_early())
     hs.append(join_many())
     with open(out + '.tmp', 'w') as fh:
